@@ -34,7 +34,15 @@ class make_block_solver {
                 const backend_params &bprm = backend_params()
                 )
         {
-            S = std::make_shared<Solver>(adapter::block_matrix<value_type>(A), prm, bprm);
+            // The block adapter merges the scalar rows assuming that their
+            // entries are sorted by column, but the user matrix may list
+            // them in arbitrary order: convert a sorted copy
+            // (the copy is only needed during the setup).
+            typedef typename backend::value_type<Matrix>::type scalar_value;
+            backend::crs<scalar_value> As(A);
+            backend::sort_rows(As);
+
+            S = std::make_shared<Solver>(adapter::block_matrix<value_type>(As), prm, bprm);
         }
 
         template <class Matrix, class Vec1, class Vec2>
